@@ -52,7 +52,8 @@ pub fn total<F: Family>(b: &[u8], ctx: &mut Ctx) -> CaseResult {
                 _ => Step::Chunk(1 + i % 3),
             })
             .collect();
-        let p3 = fam::dec_poll_styled::<F>(b, &steps, 0, None, false, 0);
+        // (the payload shape of those failures varies with the input: message, bare kind, empty message, nested errors ...)
+        let p3 = fam::dec_poll_styled::<F>(b, &steps, 0, None, false, (((fnv(b) >> 5) % crate::sio::ERR_SHAPES as u64) as u8) << 4);
         for (r, how) in [(&p2, "one byte per read with Pending before every read"), (&p3, "a schedule with transient WouldBlock / Interrupted failures")] {
             if r.spurious_pending || r.lost_wakeup || matches!(&r.transient_not_surfaced, Some(x) if x == "Pending") {
                 return Err(crate::run::Violation::new(format!(
